@@ -11,8 +11,9 @@ EXTENDS AsyncIOSched, TLCExt
 
 Both == {"aio", "ts"}
 F1 == {"F"}
-NoOwn   == {{}}                 \* no foreign thread runs a loop of its own
-BothOwn == {{}, {"F"}}          \* ... or thread F does
+NoOwn(v, s)     == {{}}                                          \* no foreign thread runs a loop of its own
+BothOwn(v, s)   == {{}, {"F"}}                                   \* ... or thread F does
+OwnCaller(v, s) == IF v = "caller" THEN {{}, {"F"}} ELSE {{}}    \* only the pinned decision depends on it
 CNone    == {<<"pre", "none">>, <<"F", "none">>, <<"L", "none">>}
 CForeign == {<<"pre", "F">>, <<"F", "F">>, <<"L", "F">>}
 CSmall   == {<<"pre", "none">>, <<"F", "none">>, <<"F", "F">>, <<"L", "none">>, <<"L", "L">>, <<"pre", "F">>}
@@ -26,7 +27,7 @@ One(K, D, W, C) == Scns(ItemScn(K, D, W, C), {Absent})
 AllOne == One(Both, {0, 1, 2}, {0, 1, 2}, TsCombos)
 
 (* ---- families of the negative controls (small, each contains a refuting scenario) --------- *)
-ControlFam(v) == CASE v = "caller" -> One({"ts"}, {0, 2}, {0}, CForeign)
+ControlFam(v) == CASE v = "caller" -> One({"ts"}, {0, 1}, {0, 1}, CForeign)
                    [] v = "early"  -> One(Both, {2}, {0}, CNone)
                    [] v = "lose"   -> One({"ts"}, {1}, {0}, CNone)
                    [] v = "nowake" -> One({"ts"}, {0, 1}, {0}, {<<"F", "none">>})
@@ -35,11 +36,15 @@ ControlFam(v) == CASE v = "caller" -> One({"ts"}, {0, 2}, {0}, CForeign)
 (* ---- design families ------------------------------------------------------------------------ *)
 \* thorough, run 1: every one-item scenario, plus the controls
 FamOne(v) == IF v = "own" THEN AllOne ELSE ControlFam(v)
-\* quick, run 1: the one-item scenarios with delays 0, 1 (waits 0, 1, 2: before, at and after the due time), plus the controls
-QuickOne == One(Both, {0, 1}, {0, 1, 2}, TsCombos)
+\* quick, run 1: the one-item scenarios with delays 0, 1 and waits 0, 1 (dispose before / at the due time), plus the controls
+QuickOne == One(Both, {0, 1}, {0, 1}, TsCombos)
 FamOneQuick(v) == IF v = "own" THEN QuickOne ELSE ControlFam(v)
-\* quick, run 2: two relative items on the thread-safe scheduler, disposed by the foreign thread
-FamTwoQuick(v) == Scns(ItemScn({"ts"}, {1}, {0}, CForeign), ItemScn({"ts"}, {1}, {0}, {<<"F", "F">>}))
+\* quick, run 2: a relative and an immediate item on the thread-safe scheduler, both disposed by the foreign thread
+FamTwoQuick(v) == Scns(ItemScn({"ts"}, {1}, {0}, CForeign), ItemScn({"ts"}, {0}, {0}, {<<"F", "F">>}))
+\* one thread-safe item handled by a foreign thread (performed with and without a loop of its own in that thread)
+FamOwnLoop(v) == One({"ts"}, {0, 1}, {0, 1}, {<<"pre", "F">>, <<"F", "F">>, <<"L", "F">>, <<"pre", "pre">>, <<"F", "L">>})
+\* ... and for the replayer: the scenarios of FamOwnLoop are performed both ways, all others without
+OwnExport(v, s) == IF s \in FamOwnLoop(v) THEN {{}, {"F"}} ELSE {{}}
 \* the families the replayer performs (item 2 may be absent: they contain the one-item scenarios)
 TwoSmall == Scns(ItemScn(Both, {0, 1}, {0, 1}, CSmall), ItemScn(Both, {0, 1}, {0, 1}, CSmall))
 FamExportQuick(v) == QuickOne \cup TwoSmall
@@ -61,6 +66,8 @@ D_NoLost       == Own => NoLostAction
 D_AtMostOnce   == Own => AtMostOnce
 D_EndOK        == Own => EndOK
 D_NoMissedWakeup == Own => NoMissedWakeup
+\* what the model of the pinned decision gets right: a foreign thread inside ANOTHER running loop is told to marshal
+D_CallerInsideAnotherLoop == (variant = "caller" /\ own # {}) => NoStartAfterDisposeReturned
 
 (* ---- negative controls ---------------------------------------------------------------------------- *)
 Reg(v) == CASE v = "caller" -> 11 [] v = "early" -> 12 [] v = "lose" -> 13 [] v = "inline" -> 14 [] v = "nowake" -> 15 [] OTHER -> 16
